@@ -1,0 +1,111 @@
+//go:build verif
+
+// Contracts for deductive verification (comment-only; no declarations).
+// The //@ lines are read by /verif/engine (gverif); see /verif/DESIGN.md §3.
+// With the build tag off this file is not part of the package; with it on it
+// adds nothing to the compiled package.
+
+package lua
+
+// ---------------------------------------------------------------------------
+// registry (state.go)
+// ---------------------------------------------------------------------------
+
+//@ define Inv_reg(rg *registry) bool = rg != nil && 0 <= rg.top && rg.top <= len(rg.array) && len(rg.array) == cap(rg.array) && offset(rg.array) == 0 && rg.handler != nil
+
+//@ iface registryHandler.registryOverflow [C01 C10 C12]
+//@ noreturn
+
+//@ func (*registry).forceResize [C01 C10 C12]
+//@ requires Inv_reg(rg) && newSize >= rg.top
+//@ ensures  Inv_reg(rg) && len(rg.array) == newSize && rg.top == old(rg.top)
+//@ ensures  forall k int :: 0 <= k && k < rg.top ==> rg.array[k] == old(rg.array[k])
+//@ ensures  fresh(rg.array)
+//@ noraise
+//@ modifies rg.array
+
+//@ func (*registry).resize [C01 C10 C12]
+//@ requires Inv_reg(rg) && requiredSize > cap(rg.array)
+//@ raises when ite(requiredSize + rg.growBy > rg.maxSize, rg.maxSize, requiredSize + rg.growBy) < requiredSize
+//@ ensures  Inv_reg(rg) && cap(rg.array) >= requiredSize && rg.top == old(rg.top)
+//@ ensures  forall k int :: 0 <= k && k < rg.top ==> rg.array[k] == old(rg.array[k])
+//@ ensures  fresh(rg.array)
+//@ modifies rg.array
+
+//@ func (*registry).checkSize [C01 C10 C12]
+//@ requires Inv_reg(rg)
+//@ raises when requiredSize > cap(rg.array) && ite(requiredSize + rg.growBy > rg.maxSize, rg.maxSize, requiredSize + rg.growBy) < requiredSize
+//@ ensures  Inv_reg(rg) && cap(rg.array) >= requiredSize && rg.top == old(rg.top)
+//@ ensures  forall k int :: 0 <= k && k < rg.top ==> rg.array[k] == old(rg.array[k])
+//@ modifies rg.array
+
+//@ define overflow(rg *registry, n int) bool = n > cap(rg.array) && ite(n + rg.growBy > rg.maxSize, rg.maxSize, n + rg.growBy) < n
+
+//@ func (*registry).SetTop [C01 C10 C12]
+//@ requires Inv_reg(rg) && topi >= 0
+//@ raises when overflow(rg, topi)
+//@ ensures  Inv_reg(rg) && rg.top == topi
+//@ ensures  forall k int :: 0 <= k && k < topi && k < old(rg.top) ==> rg.array[k] == old(rg.array[k])
+//@ ensures  forall k int :: old(rg.top) <= k && k < topi ==> rg.array[k] == LNil
+//@ modifies rg.array, rg.top, rg.array[*]
+//@ loop 1 invariant oldtopi <= i && Inv_reg(rg) && rg.top == topi && oldtopi == old(rg.top)
+//@ loop 1 invariant forall k int :: 0 <= k && k < old(rg.top) && k < topi ==> rg.array[k] == old(rg.array[k])
+//@ loop 1 invariant forall k int :: old(rg.top) <= k && k < i ==> rg.array[k] == LNil
+//@ loop 2 invariant Inv_reg(rg) && rg.top == topi && topi < old(rg.top) && len(nilRange) == oldtopi - topi && arrid(nilRange) == arrid(rg.array) && offset(nilRange) == topi && oldtopi <= len(rg.array)
+//@ loop 2 invariant forall k int :: 0 <= k && k < topi ==> rg.array[k] == old(rg.array[k])
+
+//@ func (*registry).Push [C01 C10 C12]
+//@ requires Inv_reg(rg)
+//@ raises when overflow(rg, rg.top + 1)
+//@ ensures  Inv_reg(rg) && rg.top == old(rg.top) + 1 && rg.array[old(rg.top)] == v
+//@ ensures  forall k int :: 0 <= k && k < old(rg.top) ==> rg.array[k] == old(rg.array[k])
+//@ modifies rg.array, rg.top, rg.array[*]
+
+//@ func (*registry).Pop [C01 C10 C12]
+//@ requires Inv_reg(rg) && rg.top >= 1
+//@ noraise
+//@ ensures  Inv_reg(rg) && rg.top == old(rg.top) - 1 && result == old(rg.array[rg.top-1])
+//@ ensures  forall k int :: 0 <= k && k < rg.top ==> rg.array[k] == old(rg.array[k])
+//@ modifies rg.top, rg.array[*]
+
+//@ func (*registry).Set [C01 C10 C12]
+//@ requires Inv_reg(rg) && regi >= 0
+//@ raises when overflow(rg, regi + 1)
+//@ ensures  Inv_reg(rg) && rg.array[regi] == vali && rg.top == ite(regi >= old(rg.top), regi+1, old(rg.top))
+//@ ensures  forall k int :: 0 <= k && k < old(rg.top) && k != regi ==> rg.array[k] == old(rg.array[k])
+//@ modifies rg.array, rg.top, rg.array[*]
+
+//@ func (*registry).IsFull [C01 C12]
+//@ requires Inv_reg(rg)
+//@ noraise
+//@ ensures  result <==> rg.top >= cap(rg.array)
+//@ modifies nothing
+
+//@ func (*registry).FillNil [C01 C02 C12]
+//@ requires Inv_reg(rg) && regm >= 0 && n >= 0
+//@ raises when overflow(rg, regm + n)
+//@ ensures  Inv_reg(rg) && rg.top == regm + n
+//@ ensures  forall k int :: regm <= k && k < regm+n ==> rg.array[k] == LNil
+//@ ensures  forall k int :: 0 <= k && k < regm && k < old(rg.top) ==> rg.array[k] == old(rg.array[k])
+//@ modifies rg.array, rg.top, rg.array[*]
+//@ loop 1 invariant 0 <= i && Inv_reg(rg) && rg.top == old(rg.top) && cap(rg.array) >= regm + n
+//@ loop 1 invariant forall k int :: regm <= k && k < regm+i ==> rg.array[k] == LNil
+//@ loop 1 invariant forall k int :: 0 <= k && k < regm && k < old(rg.top) ==> rg.array[k] == old(rg.array[k])
+//@ loop 2 invariant Inv_reg(rg) && rg.top == regm + n && rg.top < oldtop && len(nilRange) == oldtop - rg.top && arrid(nilRange) == arrid(rg.array) && offset(nilRange) == rg.top && oldtop <= len(rg.array)
+//@ loop 2 invariant forall k int :: 0 <= k && k < regm+n ==> rg.array[k] == ite(k >= regm, LNil, old(rg.array[k]))
+
+//@ define lim0(rg *registry, limit int) int = ite(limit == -1 || limit > rg.top, rg.top, limit)
+
+//@ func (*registry).CopyRange [C01 C02 C10 C12]
+//@ requires Inv_reg(rg) && regv >= 0 && n >= 0
+//@ requires regv <= start || regv >= lim0(rg, limit)
+//@ raises when overflow(rg, regv + n)
+//@ ensures  Inv_reg(rg) && rg.top == regv + n
+//@ ensures  forall k int :: regv <= k && k < regv+n ==> rg.array[k] == ite(start+k-regv < 0 || start+k-regv >= old(lim0(rg, limit)), LNil, old(rg.array[start+k-regv]))
+//@ ensures  forall k int :: 0 <= k && k < regv && k < old(rg.top) ==> rg.array[k] == old(rg.array[k])
+//@ modifies rg.array, rg.top, rg.array[*]
+//@ loop 1 invariant 0 <= i && Inv_reg(rg) && rg.top == old(rg.top) && cap(rg.array) >= regv + n && limit == old(lim0(rg, limit))
+//@ loop 1 invariant forall k int :: regv <= k && k < regv+i ==> rg.array[k] == ite(start+k-regv < 0 || start+k-regv >= limit, LNil, old(rg.array[start+k-regv]))
+//@ loop 1 invariant forall k int :: 0 <= k && k < old(rg.top) && !(regv <= k && k < regv+i) ==> rg.array[k] == old(rg.array[k])
+//@ loop 2 invariant Inv_reg(rg) && rg.top == regv + n && rg.top < oldtop && len(nilRange) == oldtop - rg.top && arrid(nilRange) == arrid(rg.array) && offset(nilRange) == rg.top && oldtop <= len(rg.array)
+//@ loop 2 invariant forall k int :: 0 <= k && k < regv+n ==> rg.array[k] == ite(k >= regv, ite(start+k-regv < 0 || start+k-regv >= old(lim0(rg, limit)), LNil, old(rg.array[start+k-regv])), old(rg.array[k]))
